@@ -186,7 +186,13 @@ def make_callable(fid: str, fd: dict):
         cls.__module__ = "pfverif_user"
         return cls
     pyname = fd.get("pyname") or fd["name"]      # `pyname`: several functions of a pipeline may share one Python __name__
-    src = (f"def {pyname}({', '.join(sig)}):\n"
+    if fd.get("annot"):          # `annot`: every parameter and the result annotated with this type (static validation only)
+        t = fd["annot"]
+        sig = [f"{n}: {t}" for n in sig]
+        ret = f" -> {t}" if len(fd["outputs"]) == 1 else f" -> tuple[{', '.join([t] * len(fd['outputs']))}]"
+    else:
+        ret = ""
+    src = (f"def {pyname}({', '.join(sig)}){ret}:\n"
            f"    from pfverif import build as _b\n"
            f"    return _b.invoke({fid!r}, {{{pairs}}}{extra})\n")
     ns: dict = {}
